@@ -348,6 +348,360 @@ def r3(ctx):
             ctx.check(not problems, key, "; ".join(problems), f"agrees with {s}: {a}", loc)
 
 
+# ----------------------------------------------------------------- R4 / R5: which items, and when
+_COPIES = {"list", "tuple", "iter", "reversed", "sorted", "set", "frozenset"}
+_WHOLE_METHODS = {"values", "copy", "__iter__", "keys"}
+_SLICE_FIELDS = ("start", "stop", "step")
+
+
+class _Prov:
+    """where the item handed to a remove event comes from:
+    kind 'sel'      -- selected from the collection by selector `sel` (a wrapper argument, or an
+                       expression over one): the item IS that argument, is self[sel], or is an
+                       element of self[sel];
+    kind 'whole'    -- an element of the whole collection (for x in self / self.values() / self[k]
+                       for k in self); `at` is the statement that introduces the whole-collection
+                       iteration;
+    kind 'returned' -- derived from the value returned by the underlying call;
+    kind 'unknown'  -- not understood."""
+
+    def __init__(self, kind, sel=None, at=None, why=""):
+        self.kind, self.sel, self.at, self.why = kind, sel, at, why
+
+
+def _wrapper_env(w):
+    """name -> [('assign', value, stmt) | ('iter', iterable, stmt) | ('other', None, stmt)]"""
+    env = {}
+    for n in walk_local(w):
+        if isinstance(n, ast.Assign):
+            for t in n.targets:
+                if isinstance(t, ast.Name):
+                    env.setdefault(t.id, []).append(("assign", n.value, n))
+                else:
+                    for e in ast.walk(t):
+                        if isinstance(e, ast.Name) and isinstance(e.ctx, ast.Store):
+                            env.setdefault(e.id, []).append(("other", None, n))
+        elif isinstance(n, ast.AnnAssign) and isinstance(n.target, ast.Name) and n.value is not None:
+            env.setdefault(n.target.id, []).append(("assign", n.value, n))
+        elif isinstance(n, ast.NamedExpr) and isinstance(n.target, ast.Name):
+            env.setdefault(n.target.id, []).append(("assign", n.value, n))
+        elif isinstance(n, (ast.For, ast.AsyncFor)):
+            if isinstance(n.target, ast.Name):
+                env.setdefault(n.target.id, []).append(("iter", n.iter, n))
+            else:
+                for e in ast.walk(n.target):
+                    if isinstance(e, ast.Name):
+                        env.setdefault(e.id, []).append(("other", None, n))
+        elif isinstance(n, (ast.With, ast.AsyncWith)):
+            for it in n.items:
+                if it.optional_vars is not None:
+                    for e in ast.walk(it.optional_vars):
+                        if isinstance(e, ast.Name):
+                            env.setdefault(e.id, []).append(("other", None, n))
+        # AugAssign (`index += len(self)`) keeps the name's role as the same selector
+    return env
+
+
+class _Origin:
+    def __init__(self, w, fnparam):
+        self.w = w
+        self.fnparam = fnparam
+        self.params = [a.arg for a in w.args.posonlyargs + w.args.args + w.args.kwonlyargs][1:]
+        self.env = _wrapper_env(w)
+
+    @staticmethod
+    def _is_self(e):
+        return isinstance(e, ast.Name) and e.id == "self"
+
+    def _full_slice(self, k):
+        return isinstance(k, ast.Slice) and k.lower is None and k.upper is None and k.step is None
+
+    def selector(self, k, at, depth=0):
+        """provenance of self[k]"""
+        if self._full_slice(k):
+            return [_Prov("whole", at=at)]
+        if isinstance(k, ast.Name) and k.id not in self.params and depth < 6:
+            defs = self.env.get(k.id, [])
+            out = []
+            for kind, val, st in defs:
+                if kind == "iter":
+                    # `for key in self: ... self[key]`  -> every member
+                    sub_ = self.elems(val, st, depth + 1)
+                    if all(p.kind == "whole" for p in sub_):
+                        out.extend(sub_)
+                        continue
+                    out.append(_Prov("unknown", why=f"self[{k.id}] with {k.id} iterating `{unparse(val)}`"))
+                elif kind == "assign" and isinstance(val, ast.Name):
+                    out.extend(self.selector(val, st, depth + 1))
+                else:
+                    out.append(_Prov("sel", sel=k.id))
+            if out:
+                return out
+        return [_Prov("sel", sel=unparse(k))]
+
+    def item(self, e, at, depth=0):
+        """provenance of an expression that denotes ONE member"""
+        if depth > 6:
+            return [_Prov("unknown", why="definition chain too deep")]
+        if isinstance(e, ast.Name):
+            if e.id in self.params:
+                return [_Prov("sel", sel=e.id)]
+            defs = self.env.get(e.id)
+            if not defs:
+                return [_Prov("unknown", why=f"`{e.id}` has no local definition")]
+            out = []
+            for kind, val, st in defs:
+                if kind == "assign":
+                    out.extend(self.item(val, st, depth + 1))
+                elif kind == "iter":
+                    out.extend(self.elems(val, st, depth + 1))
+                else:
+                    out.append(_Prov("unknown", why=f"`{e.id}` bound by `{unparse(st)[:50]}`"))
+            return out
+        if isinstance(e, ast.Subscript):
+            if self._is_self(e.value):
+                return self.selector(e.slice, at, depth)
+            inner = self.item(e.value, at, depth + 1)
+            if inner and all(p.kind == "returned" for p in inner):
+                return inner  # item[1] of a popped (key, value) pair
+            return [_Prov("unknown", why=f"`{unparse(e)}`")]
+        if isinstance(e, ast.Call):
+            nm = call_name(e) or ""
+            if nm == self.fnparam:
+                return [_Prov("returned")]
+            if nm in ("self.__getitem__", "self.get") and e.args:
+                return self.selector(e.args[0], at, depth)
+        return [_Prov("unknown", why=f"`{unparse(e)[:60]}`")]
+
+    def elems(self, e, at, depth=0):
+        """provenance of the ELEMENTS of iterable `e`"""
+        if depth > 6:
+            return [_Prov("unknown", why="definition chain too deep")]
+        if self._is_self(e):
+            return [_Prov("whole", at=at)]
+        if isinstance(e, ast.Call):
+            nm = call_name(e) or ""
+            if nm in _COPIES and len(e.args) == 1 and not e.keywords:
+                return self.elems(e.args[0], at, depth + 1)
+            if nm.startswith("self.") and nm[5:] in _WHOLE_METHODS and not e.args:
+                return [_Prov("whole", at=at)]
+            if nm in ("self.__getitem__",) and e.args:
+                return self.selector(e.args[0], at, depth)
+        if isinstance(e, ast.Subscript) and self._is_self(e.value):
+            return self.selector(e.slice, at, depth)
+        if isinstance(e, ast.Name):
+            if e.id in self.params:
+                return [_Prov("sel", sel=e.id)]
+            out = []
+            for kind, val, st in self.env.get(e.id, []):
+                if kind == "assign":
+                    out.extend(self.elems(val, st, depth + 1))
+                else:
+                    out.append(_Prov("unknown", why=f"`{e.id}` bound by `{unparse(st)[:50]}`"))
+            if out:
+                return out
+        return [_Prov("unknown", why=f"elements of `{unparse(e)[:60]}`")]
+
+
+def _wrapper_calls(g, helpers, fnparam):
+    """(event nodes by kind with their calls, underlying calls) of a wrapper's CFG"""
+    ev = {"set": [], "del": [], "set_wo": [], "before_pop": []}
+    under = []
+    for n in g.nodes:
+        if n.stmt is None or n.kind in ("with_exit", "handler", "join") or not isinstance(n.stmt, ast.stmt):
+            continue
+        if n.copy:
+            continue
+        for part in own_exprs(n.stmt):
+            for c in calls_in(part):
+                nm = call_name(c)
+                if nm in helpers:
+                    ev[helpers[nm]].append((n.id, c))
+                elif nm == fnparam:
+                    under.append((n.id, c))
+    return ev, under
+
+
+def _slice_shortcut_fields(g, stmt, sel):
+    """fields of slice-selector `sel` that the branch outcomes dominating `stmt` mention; None when
+    the selector is compared as a whole (`index == slice(None)`)."""
+    fields = set()
+    for nid in g.nodes_for(stmt):
+        for t, _pol in g.edge_guards(nid):
+            for n in ast.walk(t):
+                if isinstance(n, ast.Attribute) and isinstance(n.value, ast.Name) and n.value.id == sel \
+                        and n.attr in _SLICE_FIELDS:
+                    fields.add(n.attr)
+                if isinstance(n, ast.Compare) and len(n.ops) == 1 and isinstance(n.ops[0], ast.Eq):
+                    for side in (n.left, n.comparators[0]):
+                        if isinstance(side, ast.Name) and side.id == sel:
+                            return None
+    return fields
+
+
+@R.rule("C38-R4", floor=13, template="T-FLOW",
+        desc="in every wrapper that calls the underlying method, the item handed to each remove event is "
+             "selected from the collection by the SAME selector that the underlying call receives (the argument "
+             "itself, self[arg], an element of self[arg]); every member of the collection is announced only when "
+             "the underlying call takes no selector (clear); events fired after the call carry the returned item")
+def r4(ctx):
+    facs = _interfaces(ctx)
+    helpers = _event_helpers(ctx)
+    effects = load("python_mutator_effects.json")
+    for t in TYPES:
+        fac = facs[t]
+        decs = _decorators(ctx, fac)
+        removers = {m for m, e in effects[t].items() if e in ("remove", "both")}
+        for mname in sorted(removers | set(decs)):
+            key = f"{fac.key}.{mname}:remove-item"
+            if mname not in decs:
+                ctx.ok(key, "no wrapper to examine (missing decorator is reported by C38-R1)", nontrivial=False)
+                continue
+            d, w, fnparam = decs[mname]
+            g = ctx.cfg(w)
+            ev, under = _wrapper_calls(g, helpers, fnparam)
+            if not under:
+                continue  # pure delegation to instrumented siblings: nothing to relate here
+            if not ev["del"]:
+                if mname in removers:
+                    ctx.ok(key, "no remove event in this wrapper (kind coverage is C38-R2's)", nontrivial=False)
+                continue
+            loc = f"{fac.module.path}:{w.lineno}"
+            org = _Origin(w, fnparam)
+            problems, how = [], []
+            for nid, c in ev["del"]:
+                ctx.require(len(c.args) >= 2, f"{key}: remove-event helper called without an item: {unparse(c)}")
+                after_ids = g.reachable([nid], edge_ok=no_exc, include_starts=False)
+                u_after = [(i, uc) for i, uc in under if i in after_ids]
+                u_before = [(i, uc) for i, uc in under
+                            if nid in g.reachable([i], edge_ok=no_exc, include_starts=False)]
+                provs = org.item(c.args[1], g.nodes[nid].stmt)
+                for p in provs:
+                    ctx.require(p.kind != "unknown",
+                                f"{key}: origin of the remove-event item `{unparse(c.args[1])}` not understood: {p.why}")
+                    if p.kind == "returned":
+                        if not u_before:
+                            problems.append(f"remove event item `{unparse(c.args[1])}` is taken from the underlying "
+                                            "call, which has not run at that point")
+                        how.append("returned item")
+                        continue
+                    if not u_after:
+                        # event fired after the removal: only the returned item is known to be what left
+                        problems.append(
+                            f"remove event after the underlying call is given `{unparse(c.args[1])}` "
+                            f"(read from the already mutated collection / arguments) instead of the item the call returned")
+                        continue
+                    for _, uc in u_after:
+                        uargs = [unparse(a) for a in uc.args[1:]] + [unparse(k.value) for k in uc.keywords]
+                        if p.kind == "sel":
+                            if p.sel in uargs:
+                                how.append(f"selected by `{p.sel}`")
+                            else:
+                                problems.append(
+                                    f"remove events are fired for what `{p.sel}` selects, but the underlying call "
+                                    f"`{unparse(uc)}` does not receive `{p.sel}`: the members announced as removed "
+                                    "need not be the members that leave")
+                        elif p.kind == "whole":
+                            if not uargs:
+                                how.append("every member (underlying call takes no selector)")
+                                continue
+                            fields = None
+                            sels = [a for a in uargs if a in org.params]
+                            for s in sels:
+                                fields = _slice_shortcut_fields(g, p.at, s)
+                                if fields is None or set(fields) == set(_SLICE_FIELDS):
+                                    break
+                            else:
+                                missing = sorted(set(_SLICE_FIELDS) - set(fields or ()))
+                                problems.append(
+                                    f"remove events are fired for EVERY member of the collection "
+                                    f"(`{unparse(p.at).splitlines()[0][:60]}`) while the underlying call `{unparse(uc)}` removes only "
+                                    f"what `{', '.join(uargs)}` selects"
+                                    + (f"; the shortcut is guarded on {sorted(fields)} only, {missing} unconstrained"
+                                       if fields else ""))
+                                continue
+                            how.append("every member under a whole-slice guard (start, stop and step constrained)")
+            ctx.check(not problems, key, "; ".join(dict.fromkeys(problems)), ", ".join(dict.fromkeys(how)), loc)
+
+
+def _names_read(e):
+    return {n.id for n in ast.walk(e) if isinstance(n, ast.Name) and isinstance(n.ctx, ast.Load)}
+
+
+@R.rule("C38-R5", floor=4, template="T-PATH",
+        desc="pop-style wrappers (remove event after the underlying call): every normal path from the call to the "
+             "exit fires the remove event, except under a test that was decided BEFORE the call (membership "
+             "computed up front, or arguments only) -- never by comparing the returned item with a caller-supplied "
+             "value, and never by testing membership in the already mutated collection")
+def r5(ctx):
+    facs = _interfaces(ctx)
+    helpers = _event_helpers(ctx)
+    for t in TYPES:
+        fac = facs[t]
+        decs = _decorators(ctx, fac)
+        for mname in sorted(decs):
+            d, w, fnparam = decs[mname]
+            g = ctx.cfg(w)
+            ev, under = _wrapper_calls(g, helpers, fnparam)
+            if not under:
+                continue
+            under_ids = [i for i, _ in under]
+            after = g.reachable(under_ids, edge_ok=no_exc, include_starts=False)
+            dels_after = [i for i, _ in ev["del"] if i in after]
+            key = f"{fac.key}.{mname}:remove-decision"
+            if not dels_after:
+                if ev["before_pop"]:
+                    ctx.ok(key, "pre-remove hook but no remove event after the call (reported by C38-R2)", nontrivial=False)
+                continue  # not pop-style (event precedes the mutation)
+            loc = f"{fac.module.path}:{w.lineno}"
+            org = _Origin(w, fnparam)
+            free = g.reachable(under_ids, avoid=dels_after, edge_ok=no_exc, include_starts=False)
+            if g.exit not in free:
+                ctx.ok(key, "every normal path after the underlying call fires the remove event")
+                continue
+            problems, how = [], []
+            deciding = [n for n in g.nodes if n.id in free and n.kind == "test"
+                        and g.exit in g.reachable([n.id], avoid=dels_after, edge_ok=no_exc)
+                        and set(dels_after) & g.reachable([n.id], edge_ok=no_exc)]
+            if not deciding:
+                problems.append("a normal path from the underlying call to the exit skips the remove event "
+                                "without any test deciding it")
+            # names whose value is produced at/after the call
+            post = {}
+            for name, defs in org.env.items():
+                for kind, val, st in defs:
+                    ids = set(g.nodes_for(st))
+                    if ids & (after | set(under_ids)):
+                        post.setdefault(name, []).append((val, st))
+            for n in deciding:
+                test = n.stmt.test
+                names = _names_read(test)
+                late = sorted(x for x in names if x in post)
+                from_call = [x for x in late if any(
+                    val is not None and any(call_name(c) == fnparam for c in calls_in(val)) for val, _ in post[x])]
+                caller = sorted(x for x in names if x in org.params)
+                membership_now = [c for c in ast.walk(test) if isinstance(c, ast.Compare)
+                                  and any(isinstance(o, (ast.In, ast.NotIn)) for o in c.ops)
+                                  and any(isinstance(x, ast.Name) and x.id == "self" for x in c.comparators)]
+                late_membership = [x for x in late if any(
+                    val is not None and any(isinstance(c, ast.Compare) and any(isinstance(o, (ast.In, ast.NotIn)) for o in c.ops)
+                                            and any(isinstance(y, ast.Name) and y.id == "self" for y in c.comparators)
+                                            for c in ast.walk(val)) for val, _ in post[x])]
+                if from_call and caller:
+                    problems.append(
+                        f"whether the remove event fires is decided by `{unparse(test)}`, which compares the value "
+                        f"returned by the underlying call ({', '.join(from_call)}) with the caller-supplied "
+                        f"{', '.join(caller)}: a member equal/identical to that argument leaves the collection "
+                        "without a remove event; membership must be established before the call")
+                elif membership_now or late_membership:
+                    problems.append(
+                        f"whether the remove event fires is decided by `{unparse(test)}`, a membership test evaluated "
+                        "after the underlying call already removed the member")
+                else:
+                    how.append(f"`{unparse(test)}` decided before the call" if not late else f"`{unparse(test)}`")
+            ctx.check(not problems, key, "; ".join(problems), "event skipped only under " + ", ".join(how), loc)
+
+
 # --------------------------------------------------------------------------------- self-test
 # R1
 R.mutant("list-clear-decorator-removed", COLL,
@@ -397,7 +751,52 @@ R.mutant("set-ior-no-type-check", COLL,
          sub("        def __ior__(self, value):\n            if not _set_binops_check_strict(self, value):\n                return NotImplemented\n",
              "        def __ior__(self, value):\n"),
          "C38-R3")
+# R4
+R.mutant("list-delslice-whole-shortcut-ignores-step", COLL,
+         sub("                for item in self[index]:\n                    __del(self, item, None, index)\n",
+             "                if index.start is None and index.stop is None:\n                    members = self\n                else:\n                    members = self[index]\n                for item in members:\n                    __del(self, item, None, index)\n"),
+         "C38-R4")
+R.mutant("list-delslice-events-drop-step", COLL,
+         sub("                for item in self[index]:\n                    __del(self, item, None, index)\n",
+             "                for item in self[index.start : index.stop]:\n                    __del(self, item, None, index)\n"),
+         "C38-R4")
+R.mutant("dict-delitem-event-for-every-value", COLL,
+         sub("            if key in self:\n                __del(self, self[key], _sa_initiator, key)\n            fn(self, key)\n",
+             "            for k in self:\n                __del(self, self[k], _sa_initiator, k)\n            fn(self, key)\n"),
+         "C38-R4")
+R.mutant("set-pop-event-item-not-returned", COLL,
+         sub("            __del(self, item, None, NO_KEY)\n            return item\n",
+             "            for member in self:\n                __del(self, member, None, NO_KEY)\n            return item\n"),
+         "C38-R4")
+# R5
+R.mutant("dict-pop-decides-by-returned-is-default", COLL,
+         sub("            _to_del = key in self\n            if default is NO_ARG:\n                item = fn(self, key)\n            else:\n                item = fn(self, key, default)\n            if _to_del:\n                __del(self, item, None, key)\n            return item\n",
+             "            if default is NO_ARG:\n                item = fn(self, key)\n            else:\n                item = fn(self, key, default)\n                if item is default:\n                    return item\n            __del(self, item, None, key)\n            return item\n"),
+         "C38-R5")
+R.mutant("dict-pop-membership-computed-after-call", COLL,
+         sub("            _to_del = key in self\n            if default is NO_ARG:\n                item = fn(self, key)\n            else:\n                item = fn(self, key, default)\n            if _to_del:\n",
+             "            if default is NO_ARG:\n                item = fn(self, key)\n            else:\n                item = fn(self, key, default)\n            _to_del = key in self\n            if _to_del:\n"),
+         "C38-R5")
+R.mutant("dict-pop-membership-tested-after-call", COLL,
+         sub("            if _to_del:\n                __del(self, item, None, key)\n", "            if key in self:\n                __del(self, item, None, key)\n"),
+         "C38-R5")
+R.mutant("list-pop-skips-event-for-default-index", COLL,
+         sub("            item = fn(self, index)\n            __del(self, item, None, index)\n            return item\n",
+             "            item = fn(self, index)\n            if item == index:\n                return item\n            __del(self, item, None, index)\n            return item\n"),
+         "C38-R5")
 # benign
+R.mutant("benign-delslice-named-selection", COLL,
+         sub("                for item in self[index]:\n                    __del(self, item, None, index)\n",
+             "                leaving = list(self[index])\n                for member in leaving:\n                    __del(self, member, None, index)\n"),
+         None)
+R.mutant("benign-delslice-whole-shortcut-all-fields", COLL,
+         sub("                for item in self[index]:\n                    __del(self, item, None, index)\n",
+             "                if index.start is None and index.stop is None and index.step is None:\n                    members = list(self)\n                else:\n                    members = self[index]\n                for item in members:\n                    __del(self, item, None, index)\n"),
+         None)
+R.mutant("benign-dict-pop-rename-and-split", COLL,
+         sub("            _to_del = key in self\n            if default is NO_ARG:\n                item = fn(self, key)\n            else:\n                item = fn(self, key, default)\n            if _to_del:\n                __del(self, item, None, key)\n            return item\n",
+             "            present = key in self\n            if default is not NO_ARG:\n                item = fn(self, key, default)\n            else:\n                item = fn(self, key)\n            if not present:\n                return item\n            __del(self, item, None, key)\n            return item\n"),
+         None)
 R.mutant("benign-rename-local-pop", COLL,
          sub("            __before_pop(self)\n            item = fn(self, index)\n            __del(self, item, None, index)\n            return item\n",
              "            __before_pop(self)\n            popped = fn(self, index)\n            __del(self, popped, None, index)\n            return popped\n"),
